@@ -79,6 +79,25 @@ def gen(rng, tier):
         for rhs in ["0", "-1", "1 - 1", "x - x - 1", "0 + x - x"]:
             cases.append({"formula": f"{resp} ~ {rhs}", "frame": gen_dm.make_frame(rng), "na": "drop", "kind": kind,
                           "resp": resp, "rhs": rhs, "tag": "empty-rhs"})
+    # missing values in the response's own columns, also in pandas' nullable integer dtype (pd.NA): those
+    # observations are not part of the design; response and predictors stay row-aligned
+    for i in range(40 if tier != "thorough" else 400):
+        fr = gen_dm.make_frame(rng)
+        nrow = len(fr["columns"][0]["values"])
+        resp, kind, holes_in = rng.choice([("z", "num", ["z"]), ("y", "num", ["y"]), ("I(y * 2)", "expr", ["y"]),
+                                           ("prop(succ, n_trials)", "prop", ["n_trials"]),
+                                           ("prop(succ, n_trials)", "prop", ["succ"]), ("k", "num", ["k"])])
+        for col in fr["columns"]:
+            if col["name"] in holes_in:
+                for r_ in rng.sample(range(nrow), rng.randint(1, 3)):
+                    col["values"][r_] = None
+                if col["type"] == "int":
+                    col.pop("dtype", None)
+                    col["type"] = rng.choice(["nint", "nint", "int"])
+        # the right-hand side must not use the holed column itself
+        rhs = rng.choice(["x + f", "0 + w + g", "x:f + (1 | g)", "f + (x | h)", "w", "scale(x) + c"])
+        cases.append({"formula": f"{resp} ~ {rhs}", "frame": fr, "na": "drop", "kind": kind, "resp": resp, "rhs": rhs,
+                      "tag": "missing-response"})
     for rhs in ["x + f", "0 + x", "x + (1|g)"]:
         cases.append({"formula": rhs, "frame": gen_dm.make_frame(rng), "na": "drop", "kind": "none", "resp": None, "rhs": rhs})
     return cases
@@ -91,6 +110,11 @@ def oracle(c):
     df = dm.to_pandas(c["frame"])
     kind = c["kind"]
     f = c["formula"]
+    if c.get("tag") == "missing-response":
+        # the observations the design is about: complete in the variables the formula uses (read off the text)
+        names = set(re.findall(r"[A-Za-z_][A-Za-z_0-9]*", f))
+        used = [v for v in df.columns if v in names]
+        df = df[~df[used].isna().any(axis=1).to_numpy()].reset_index(drop=True)
     try:
         d = dm.build(c)
     except Exception as e:
